@@ -95,7 +95,8 @@ class OperatorTemplate(AbstractBaseTemplate):
         if variables:
             variables = _update_variables(self.variables, variables)
         else:
-            variables = self.variables
+            # work on a copy: unused variables are removed below, which must not touch the parent template
+            variables = dict(self.variables)
 
         rogue_variables = set()
         for var in variables:
